@@ -261,13 +261,19 @@ func init() {
 	registerSeq(seqCheck{
 		id: "C04", quick: 100 * time.Second, thor: 15 * time.Minute, depthQ: 3, depthT: 5,
 		alphabet: tsAlphabet(), restart: false,
-		sigs: []string{"tx:pcev", "pit:acc:effective-volumes", "acc:effective-volumes", "read:", "ref:"},
+		sigs:    []string{"tx:pcev", "pit:acc:effective-volumes", "acc:effective-volumes", "read:", "ref:"},
+		configs: withTwin([][]lx.LedgerSpec{{{Name: "l1"}}}),
 		check: func(ctx context.Context, s *lx.StepInfo, rep *lx.Report) {
 			lx.CheckCurrent(ctx, s.Ctrl, s.Ref, rep)
 			lx.CheckPIT(ctx, s.Ctrl, s.Ref, rep)
+			// effective volumes are rebuilt by the import from the transactions' timestamps
+			twinLeg(ctx, s, rep, func(c ledgercontroller.Controller, sub *lx.Report) {
+				lx.CheckCurrent(ctx, c, s.Ref, sub)
+				lx.CheckPIT(ctx, c, s.Ref, sub)
+			})
 		},
 		need: []string{"post:ok", "revert:ok"},
-		rule: "every sequence of length<=depth over creates with effective timestamps T-1h, T, T+1h (ties forced by repeating T), src==dst, two-posting transactions and reverts at effective date / now, on a 2-account 1-asset universe with MOVES_HISTORY_POST_COMMIT_EFFECTIVE_VOLUMES=SYNC; after each sequence, for every transaction GetTransaction/ListTransactions(expand=effectiveVolumes) == fold of postings ordered by (effective timestamp, insertion order) up to that transaction, and ListAccounts(pit, expand=effectiveVolumes) == fold up to pit at every recorded instant",
+		rule: "every sequence of length<=depth over creates with effective timestamps T-1h, T, T+1h (ties forced by repeating T), src==dst, two-posting transactions and reverts at effective date / now, on a 2-account 1-asset universe with MOVES_HISTORY_POST_COMMIT_EFFECTIVE_VOLUMES=SYNC; after each sequence, for every transaction GetTransaction/ListTransactions(expand=effectiveVolumes) == fold of postings ordered by (effective timestamp, insertion order) up to that transaction, and ListAccounts(pit, expand=effectiveVolumes) == fold up to pit at every recorded instant; the same on a twin ledger into which the export of the history is imported",
 	})
 	registerSeq(seqCheck{
 		id: "C05", quick: 110 * time.Second, thor: 15 * time.Minute, depthQ: 3, depthT: 4,
